@@ -52,8 +52,9 @@ type Fn struct {
 	edgeDQ  map[*ssa.BasicBlock][]Lin
 	inv     map[*ssa.BasicBlock][]Lin
 	global  []Lin
-	noSplit *ssa.Call // call whose precondition is being proved: its own return cases must not be used
-	pre     []Lin     // assumed preconditions (proved at every call site); not exported to callers
+	callF   map[ssa.Instruction][]Lin // postconditions of a call / tuple component, emitted where the instruction is
+	noSplit *ssa.Call                 // call whose precondition is being proved: its own return cases must not be used
+	pre     []Lin                     // assumed preconditions (proved at every call site); not exported to callers
 	seen    map[interface{}]bool
 	loadOf  map[*ssa.UnOp]ssa.Value    // canonical representative
 	cellInv map[*ssa.Alloc][]ssa.Value // alloc -> params P with len(*alloc) <= len(P)
@@ -104,7 +105,7 @@ func calleeName(c *ssa.Call) string {
 }
 
 func newFn(e *Engine, f *ssa.Function) *Fn {
-	s := &Fn{e: e, f: f, seen: map[interface{}]bool{}, loadOf: map[*ssa.UnOp]ssa.Value{}, inv: map[*ssa.BasicBlock][]Lin{}}
+	s := &Fn{e: e, f: f, seen: map[interface{}]bool{}, loadOf: map[*ssa.UnOp]ssa.Value{}, inv: map[*ssa.BasicBlock][]Lin{}, callF: map[ssa.Instruction][]Lin{}}
 	s.computeReach()
 	s.canonLoads()
 	s.buildEdgeFacts()
@@ -574,7 +575,7 @@ func (e *Engine) iv(v ssa.Value, depth int) (lo, hi int64, ok bool) {
 		}
 	case *ssa.Parameter:
 		f := x.Parent()
-		if e.inMod(f) && !e.valueUse[f] && f.Object() != nil && !f.Object().Exported() && len(e.callers[f]) > 0 {
+		if e.inMod(f) && e.knownCallers(f) {
 			pi := -1
 			for i, p := range f.Params {
 				if p == x {
